@@ -87,56 +87,57 @@ pub fn eval(t: &[&str]) -> Option<String> {
         "opt_str" => render(h::resolve_to_string_options(tostr_options(t[1], t[2], t[3])), |(p, s, m, i)| {
             format!("{} {} {} {}", prec_name(p), unit_name(s), m, i)
         }),
-        "optpub" => {
+        "optpub" | "optpubeq" => {
             let (l, s, inc, m) = (t[2], t[3], t[4], t[5]);
             let iso = Calendar::default();
+            let eq = t[0] == "optpubeq";
             match t[1] {
                 "pd_until" | "pd_since" => okerr(diff_settings(l, s, inc, m).and_then(|d| {
                     let a = PlainDate::try_new(2020, 1, 15, iso.clone())?;
-                    let b = PlainDate::try_new(2021, 3, 20, iso.clone())?;
+                    let b = if eq { a.clone() } else { PlainDate::try_new(2021, 3, 20, iso.clone())? };
                     if t[1] == "pd_until" { a.until(&b, d) } else { a.since(&b, d) }
                 })),
                 "pt_until" | "pt_since" => okerr(diff_settings(l, s, inc, m).and_then(|d| {
                     let a = PlainTime::try_new(1, 2, 3, 4, 5, 6)?;
-                    let b = PlainTime::try_new(20, 30, 40, 500, 600, 700)?;
+                    let b = if eq { a } else { PlainTime::try_new(20, 30, 40, 500, 600, 700)? };
                     if t[1] == "pt_until" { a.until(&b, d) } else { a.since(&b, d) }
                 })),
                 "pdt_until" | "pdt_since" => okerr(diff_settings(l, s, inc, m).and_then(|d| {
                     let a = PlainDateTime::try_new(2020, 1, 15, 1, 2, 3, 4, 5, 6, iso.clone())?;
-                    let b = PlainDateTime::try_new(2021, 3, 20, 20, 30, 40, 500, 600, 700, iso.clone())?;
+                    let b = if eq { a.clone() } else { PlainDateTime::try_new(2021, 3, 20, 20, 30, 40, 500, 600, 700, iso.clone())? };
                     if t[1] == "pdt_until" { a.until(&b, d) } else { a.since(&b, d) }
                 })),
                 "in_until" | "in_since" => okerr(diff_settings(l, s, inc, m).and_then(|d| {
                     let a = Instant::try_new(1_000_000_000_123_456_789)?;
-                    let b = Instant::try_new(1_000_086_400_654_321_987)?;
+                    let b = if eq { a } else { Instant::try_new(1_000_086_400_654_321_987)? };
                     if t[1] == "in_until" { a.until(&b, d) } else { a.since(&b, d) }
                 })),
                 "zdt_until" | "zdt_since" => okerr(diff_settings(l, s, inc, m).and_then(|d| {
                     let p = FsTzdbProvider::default();
                     let tz = TimeZone::try_from_str("UTC")?;
                     let a = ZonedDateTime::try_new(1_000_000_000_123_456_789, iso.clone(), tz.clone())?;
-                    let b = ZonedDateTime::try_new(1_040_086_400_654_321_987, iso.clone(), tz)?;
+                    let b = if eq { a.clone() } else { ZonedDateTime::try_new(1_040_086_400_654_321_987, iso.clone(), tz)? };
                     if t[1] == "zdt_until" { a.until_with_provider(&b, d, &p) } else { a.since_with_provider(&b, d, &p) }
                 })),
                 "ym_until" | "ym_since" => okerr(diff_settings(l, s, inc, m).and_then(|d| {
                     let a = PlainYearMonth::from_str("2020-01")?;
-                    let b = PlainYearMonth::from_str("2023-07")?;
+                    let b = if eq { a.clone() } else { PlainYearMonth::from_str("2023-07")? };
                     if t[1] == "ym_until" { a.until(&b, d) } else { a.since(&b, d) }
                 })),
                 "du_round" => okerr(round_options(l, s, inc, m).and_then(|o| {
                     let p = FsTzdbProvider::default();
-                    let d = Duration::from_str("P1Y2M3DT4H5M6.007008009S")?;
+                    let d = Duration::from_str(if eq { "PT0S" } else { "P1Y2M3DT4H5M6.007008009S" })?;
                     let rel = PlainDate::try_new(2020, 1, 15, iso.clone())?;
                     d.round_with_provider(o, Some(RelativeTo::PlainDate(rel)), &p)
                 })),
                 "pdt_round" => okerr(round_options(l, s, inc, m).and_then(|o| {
-                    PlainDateTime::try_new(2020, 1, 15, 1, 2, 3, 4, 5, 6, iso.clone())?.round(o)
+                    (if eq { PlainDateTime::try_new(2020, 1, 1, 0, 0, 0, 0, 0, 0, iso.clone())? } else { PlainDateTime::try_new(2020, 1, 15, 1, 2, 3, 4, 5, 6, iso.clone())? }).round(o)
                 })),
-                "in_round" => okerr(round_options(l, s, inc, m).and_then(|o| Instant::try_new(1_000_000_000_123_456_789)?.round(o))),
+                "in_round" => okerr(round_options(l, s, inc, m).and_then(|o| Instant::try_new(if eq { 0 } else { 1_000_000_000_123_456_789 })?.round(o))),
                 "pt_round" => okerr((|| {
                     let incf = if inc == "-" { None } else { Some(i(inc) as f64) };
                     let u = opt_unit(s).ok_or(TemporalError::range())?;
-                    PlainTime::try_new(1, 2, 3, 4, 5, 6)?.round(u, incf, opt_mode(m))
+                    (if eq { PlainTime::try_new(0, 0, 0, 0, 0, 0)? } else { PlainTime::try_new(1, 2, 3, 4, 5, 6)? }).round(u, incf, opt_mode(m))
                 })()),
                 _ => return None,
             }
@@ -246,7 +247,11 @@ pub fn generate(rng: &mut Rng, thorough: bool) -> Vec<String> {
                 for inc in pub_incs {
                     let reps = if thorough { 3 } else { 1 };
                     for _ in 0..reps {
-                        v.push(format!("optpub {op} {l} {s} {inc} {}", rng.pick(&MOPT)));
+                        let mo = rng.pick(&MOPT);
+                        v.push(format!("optpub {op} {l} {s} {inc} {mo}"));
+                        // the same options with degenerate operands (equal values, zero duration, already rounded):
+                        // validity of the options does not depend on the operands
+                        v.push(format!("optpubeq {op} {l} {s} {inc} {mo}"));
                     }
                 }
             }
